@@ -151,33 +151,6 @@ func (m *c10Model) quietProducerOK(fi *FuncInfo) (bool, string) {
 	return ok, ""
 }
 
-// idSide recognises recv[x] or recv[x].M() and returns which parameter indexes it and the accessor.
-func (m *c10Model) idSide(e ast.Expr, recv, pi, pj types.Object) (side string, acc *types.Func, ok bool) {
-	e = ast.Unparen(e)
-	if call, isCall := e.(*ast.CallExpr); isCall {
-		sel, isSel := ast.Unparen(call.Fun).(*ast.SelectorExpr)
-		if !isSel || len(call.Args) != 0 {
-			return "", nil, false
-		}
-		acc = callee(m.info, call)
-		if acc == nil {
-			return "", nil, false
-		}
-		e = ast.Unparen(sel.X)
-	}
-	ix, isIdx := e.(*ast.IndexExpr)
-	if !isIdx || objOf(m.info, ix.X) != recv {
-		return "", nil, false
-	}
-	switch objOf(m.info, ix.Index) {
-	case pi:
-		return "i", acc, true
-	case pj:
-		return "j", acc, true
-	}
-	return "", nil, false
-}
-
 func c10RecvAndParams(info *types.Info, fd *ast.FuncDecl) (recv types.Object, params []types.Object) {
 	if fd.Recv != nil && len(fd.Recv.List) == 1 && len(fd.Recv.List[0].Names) == 1 {
 		recv = info.Defs[fd.Recv.List[0].Names[0]]
@@ -190,167 +163,351 @@ func c10RecvAndParams(info *types.Info, fd *ast.FuncDecl) (recv types.Object, pa
 	return
 }
 
-// checkComparators: every Less method comparing packed ids is `a[i] < a[j]` (or through the same id accessor).
-func (m *c10Model) checkComparators() {
-	r := m.r
-	found := 0
+// c10SortSite is the sort call an exported Sort method reaches (directly or through unexported helpers).
+type c10SortSite struct {
+	call    *ast.CallExpr
+	in      *FuncInfo
+	adapter types.Type   // sort.Sort / sort.Stable: the sort.Interface implementation
+	less    *ast.FuncLit // sort.Slice / sort.SliceStable with a literal
+	lessFn  *FuncInfo    // ... with a named function
+	slice   types.Object // the variable the literal indexes (sort.Slice)
+}
+
+// sortMethods are the exported parameterless methods on a slice of packed ids, or of an interface offering
+// a packed-id accessor, that reach a call of package sort: the "provided sorts" of the property.
+func (m *c10Model) sortMethods() map[*FuncInfo]*c10SortSite {
+	out := map[*FuncInfo]*c10SortSite{}
 	for _, fi := range m.funcs {
 		sig := fi.Obj.Type().(*types.Signature)
-		if fi.Obj.Name() != "Less" || sig.Recv() == nil || sig.Params().Len() != 2 {
+		if sig.Recv() == nil || !fi.Obj.Exported() || sig.Params().Len() != 0 || sig.Results().Len() != 0 {
 			continue
 		}
-		comparesIDs := false
-		ast.Inspect(fi.Decl.Body, func(n ast.Node) bool {
-			if be, ok := n.(*ast.BinaryExpr); ok {
-				switch be.Op {
-				case token.LSS, token.GTR, token.LEQ, token.GEQ, token.EQL, token.NEQ:
-					if m.isPacked(m.info.TypeOf(be.X)) || m.isPacked(m.info.TypeOf(be.Y)) {
-						comparesIDs = true
+		sl, ok := sig.Recv().Type().Underlying().(*types.Slice)
+		if !ok || !m.idElem(sl.Elem()) {
+			continue
+		}
+		var site *c10SortSite
+		inspectDeep(m.pk, fi, 3, func(ds deepSite, n ast.Node) bool {
+			call, ok := n.(*ast.CallExpr)
+			if !ok || site != nil {
+				return true
+			}
+			fn := callee(m.info, call)
+			switch {
+			case (isPkgFunc(fn, "sort", "Sort") || isPkgFunc(fn, "sort", "Stable")) && len(call.Args) == 1:
+				// the sort.Interface value may be a parameter of an extracted helper: follow it to the caller
+				arg := call.Args[0]
+				cur := ds.fi
+				for k := len(ds.stack) - 1; k >= 0; k-- {
+					if _, isIface := m.info.TypeOf(arg).Underlying().(*types.Interface); !isIface {
+						break
+					}
+					o := objOf(m.info, arg)
+					if o == nil {
+						break
+					}
+					a := argForParam(m.info, cur, ds.stack[k], o)
+					if a == nil {
+						break
+					}
+					arg = a
+					if k > 0 {
+						if f := callee(m.info, ds.stack[k-1]); f != nil {
+							cur = m.funcInfoOf(f)
+						}
+					} else {
+						cur = fi
+					}
+					if cur == nil {
+						break
+					}
+				}
+				site = &c10SortSite{call: call, in: ds.fi, adapter: m.info.TypeOf(arg)}
+			case (isPkgFunc(fn, "sort", "Slice") || isPkgFunc(fn, "sort", "SliceStable")) && len(call.Args) == 2:
+				site = &c10SortSite{call: call, in: ds.fi}
+				x := ast.Unparen(call.Args[0])
+				if conv, isCall := x.(*ast.CallExpr); isCall && len(conv.Args) == 1 {
+					if tv, ok := m.info.Types[conv.Fun]; ok && tv.IsType() {
+						x = ast.Unparen(conv.Args[0])
+					}
+				}
+				site.slice = objOf(m.info, x)
+				switch l := ast.Unparen(call.Args[1]).(type) {
+				case *ast.FuncLit:
+					site.less = l
+				case *ast.Ident:
+					if f, ok := m.info.Uses[l].(*types.Func); ok {
+						site.lessFn = m.funcInfoOf(f)
 					}
 				}
 			}
 			return true
 		})
-		if !comparesIDs {
-			continue
-		}
-		found++
-		adapter := m.localName(sig.Recv().Type())
-		c := "comparator@" + adapter
-		recv, params := c10RecvAndParams(m.info, fi.Decl)
-		m.checkLess(fi, c+".Less", recv, params)
-		// Swap / Len
-		if sw := m.method(adapter, "Swap"); sw == nil {
-			r.Anchor(adapter + ".Swap")
-		} else {
-			rv, ps := c10RecvAndParams(m.info, sw.Decl)
-			ok := false
-			if len(sw.Decl.Body.List) == 1 && len(ps) == 2 {
-				if as, isAs := sw.Decl.Body.List[0].(*ast.AssignStmt); isAs && as.Tok == token.ASSIGN && len(as.Lhs) == 2 && len(as.Rhs) == 2 {
-					s := func(e ast.Expr) string { sd, acc, ok := m.idSide(e, rv, ps[0], ps[1]); _ = ok; _ = acc; return sd }
-					l0, l1, r0, r1 := s(as.Lhs[0]), s(as.Lhs[1]), s(as.Rhs[0]), s(as.Rhs[1])
-					ok = l0 != "" && l1 != "" && l0 != l1 && r0 == l1 && r1 == l0
-				}
-			}
-			r.Check(ok, c+".Swap", sw.Decl.Pos(), "exchanges elements i and j", "Swap does not exchange elements i and j: sorting loses or duplicates ids")
-		}
-		if ln := m.method(adapter, "Len"); ln == nil {
-			r.Anchor(adapter + ".Len")
-		} else {
-			rv, _ := c10RecvAndParams(m.info, ln.Decl)
-			ok := false
-			if len(ln.Decl.Body.List) == 1 {
-				if ret, isRet := ln.Decl.Body.List[0].(*ast.ReturnStmt); isRet && len(ret.Results) == 1 {
-					if call, isCall := ast.Unparen(ret.Results[0]).(*ast.CallExpr); isCall && builtinName(m.info, call) == "len" && len(call.Args) == 1 && objOf(m.info, call.Args[0]) == rv {
-						ok = true
-					}
-				}
-			}
-			r.Check(ok, c+".Len", ln.Decl.Pos(), "returns len(receiver)", "Len does not return len(receiver): part of the ids is never sorted")
-		}
-		// who sorts with it
-		var users []string
-		var upos token.Pos
-		for _, g := range m.funcs {
-			ast.Inspect(g.Decl.Body, func(n ast.Node) bool {
-				call, ok := n.(*ast.CallExpr)
-				if !ok || len(call.Args) != 1 {
-					return true
-				}
-				fn := callee(m.info, call)
-				if (isPkgFunc(fn, "sort", "Sort") || isPkgFunc(fn, "sort", "Stable")) && m.localName(m.info.TypeOf(call.Args[0])) == adapter {
-					users = append(users, g.Name())
-					upos = call.Pos()
-				}
-				return true
-			})
-		}
-		if len(users) == 0 {
-			r.Unknown("sort@"+adapter, fi.Decl.Pos(), "no sort.Sort(%s(x)) found: the id comparator is not used by a Sort method", adapter)
-		} else {
-			sort.Strings(users)
-			r.OK("sort@"+adapter, upos, "%s sorts with sort.Sort(%s(...)), i.e. ascending by the integer id", strings.Join(users, ", "), adapter)
+		if site != nil {
+			out[fi] = site
 		}
 	}
-	if found < 3 {
-		for _, n := range []string{"Elements.Sort", "ElementIDs.Sort", "FeatureIDs.Sort"} {
-			if findFunc(m.pk, n) == nil {
-				r.Anchor(n)
-			}
-		}
-	}
-	r.Stat("id_comparators", found)
+	return out
 }
 
-func (m *c10Model) checkLess(fi *FuncInfo, c string, recv types.Object, params []types.Object) {
+// idElem: a packed id, or an interface with a parameterless method returning a packed id.
+func (m *c10Model) idElem(t types.Type) bool {
+	if m.isPacked(t) {
+		return true
+	}
+	if _, ok := t.Underlying().(*types.Interface); !ok {
+		return false
+	}
+	ms := types.NewMethodSet(t)
+	for i := 0; i < ms.Len(); i++ {
+		if f, ok := ms.At(i).Obj().(*types.Func); ok {
+			sg := f.Type().(*types.Signature)
+			if sg.Params().Len() == 0 && sg.Results().Len() == 1 && m.isPacked(sg.Results().At(0).Type()) {
+				return true
+			}
+		}
+	}
+	return false
+}
+
+// abstractElems builds n abstract elements of a sorted list: opaque sort keys named e0, e1, ...
+func (m *c10Model) abstractElems(elemT types.Type, n int) []c10Val {
+	var out []c10Val
+	for i := 0; i < n; i++ {
+		v := m.ev.unknownOf(elemT, "abstract list element")
+		v.Tag = fmt.Sprintf("e%d|", i)
+		out = append(out, v)
+	}
+	return out
+}
+
+// checkComparators: every provided sort orders by strict ascending integer comparison of the packed ids.
+// The less function is *evaluated* for two abstract elements under each of the three possible orders of
+// their keys (and both argument orders), so its surface form does not matter.
+func (m *c10Model) checkComparators() {
 	r := m.r
-	pos := fi.Decl.Pos()
-	if recv == nil || len(params) != 2 || len(fi.Decl.Body.List) != 1 {
-		r.Unknown(c, pos, "comparator over packed ids is not a single `return a[i] < a[j]` (accepted: that form, possibly through one id accessor on both sides)")
+	for _, n := range []string{"Elements.Sort", "ElementIDs.Sort", "FeatureIDs.Sort"} {
+		if findFunc(m.pk, n) == nil {
+			r.Anchor(n)
+		}
+	}
+	sorts := m.sortMethods()
+	var fis []*FuncInfo
+	for fi := range sorts {
+		fis = append(fis, fi)
+	}
+	sort.Slice(fis, func(i, j int) bool { return fis[i].Name() < fis[j].Name() })
+	iw, is, _ := m.ev.intType(types.Typ[types.Int])
+	idx := func(i int) c10Val { return c10IntVal(c10ConstVec(uint64(i), iw, is)) }
+	for _, fi := range fis {
+		site := sorts[fi]
+		c := "comparator@" + fi.Name()
+		elemT := fi.Obj.Type().(*types.Signature).Recv().Type().Underlying().(*types.Slice).Elem()
+		r.OK("sort@"+fi.Name(), site.call.Pos(), "%s sorts with `%s`, i.e. ascending by the less function checked below", fi.Name(), c10Src(r, site.call))
+
+		// the less / swap / len functions
+		var lessRun func(elems []c10Val, i, j int) []c10Outcome
+		var swapFi, lenFi *FuncInfo
+		lessPos := site.call.Pos()
+		switch {
+		case site.adapter != nil:
+			find := func(name string) *FuncInfo {
+				obj, _, _ := types.LookupFieldOrMethod(site.adapter, true, m.pk.Types, name)
+				f, _ := obj.(*types.Func)
+				if f == nil {
+					return nil
+				}
+				return m.funcInfoOf(f)
+			}
+			lf := find("Less")
+			swapFi, lenFi = find("Swap"), find("Len")
+			if lf == nil || swapFi == nil || lenFi == nil {
+				r.Unknown(c+" less", site.call.Pos(), "the sort.Interface methods of %s have no body in the package", site.adapter)
+				continue
+			}
+			lessPos = lf.Decl.Pos()
+			lessRun = func(elems []c10Val, i, j int) []c10Outcome {
+				return m.ev.call(lf.Decl, ptrVal(c10SliceVal(elems)), []c10Val{idx(i), idx(j)}, 1)
+			}
+		case site.less != nil && site.slice != nil:
+			lessPos = site.less.Pos()
+			lessRun = func(elems []c10Val, i, j int) []c10Outcome {
+				return m.ev.callBody(site.less.Type, site.less.Body, c10Env{site.slice: c10SliceVal(elems)}, []c10Val{idx(i), idx(j)}, 1)
+			}
+		default:
+			r.Unknown(c+" less", site.call.Pos(), "the less function of `%s` is neither a sort.Interface of the package nor a function literal over the sorted variable", c10Src(r, site.call))
+			continue
+		}
+		m.checkLess(c, lessPos, elemT, lessRun)
+		if site.adapter == nil {
+			r.OKTrivial(c+" swap", site.call.Pos(), "sort.Slice exchanges the elements itself")
+			r.OKTrivial(c+" len", site.call.Pos(), "sort.Slice takes the length of the slice itself")
+			continue
+		}
+		// Swap(0,1) on [e0,e1,e2] must give [e1,e0,e2]
+		{
+			elems := m.abstractElems(elemT, 3)
+			outs := m.ev.call(swapFi.Decl, ptrVal(c10SliceVal(elems)), []c10Val{idx(0), idx(1)}, 1)
+			rv, _ := c10RecvAndParams(m.info, swapFi.Decl)
+			ok, why := false, ""
+			switch {
+			case len(outs) != 1 || outs[0].Unsupported != "":
+				why = "Swap is outside the interpreted statement forms"
+				if len(outs) > 0 {
+					why += ": " + outs[0].Unsupported
+				}
+			case outs[0].Panic:
+				why = "Swap panics: " + outs[0].PanicWhy
+			default:
+				fin := outs[0].Final[rv]
+				ok = fin.K == c10VSlice && len(fin.Args) == 3 && fin.Args[0].Tag == elems[1].Tag && fin.Args[1].Tag == elems[0].Tag && fin.Args[2].Tag == elems[2].Tag
+			}
+			switch {
+			case ok:
+				r.OK(c+" swap", swapFi.Decl.Pos(), "%s(0,1) turns [e0 e1 e2] into [e1 e0 e2]", swapFi.Name())
+			case why != "":
+				r.Unknown(c+" swap", swapFi.Decl.Pos(), "%s", why)
+			default:
+				r.Bad(c+" swap", swapFi.Decl.Pos(), "%s does not exchange elements i and j: sorting loses or duplicates ids", swapFi.Name())
+			}
+		}
+		{
+			ok := true
+			why := ""
+			for _, n := range []int{0, 2, 3} {
+				got, w := c10Single(m.ev.call(lenFi.Decl, ptrVal(c10SliceVal(m.abstractElems(elemT, n))), nil, 1), lenFi.Name())
+				if w != "" {
+					why = w
+					break
+				}
+				if x, isC := got.V.signedConst(); got.K != c10VInt || !isC || x != int64(n) {
+					ok = false
+				}
+			}
+			switch {
+			case why != "":
+				r.Unknown(c+" len", lenFi.Decl.Pos(), "%s", why)
+			case ok:
+				r.OK(c+" len", lenFi.Decl.Pos(), "%s returns the number of elements (evaluated for 0, 2, 3)", lenFi.Name())
+			default:
+				r.Bad(c+" len", lenFi.Decl.Pos(), "%s does not return the number of elements: part of the ids is never sorted", lenFi.Name())
+			}
+		}
+	}
+	r.Stat("id_sorts", len(fis))
+}
+
+// checkLess evaluates less(i,j) for abstract elements under every order of their keys.
+func (m *c10Model) checkLess(c string, pos token.Pos, elemT types.Type, run func(elems []c10Val, i, j int) []c10Outcome) {
+	r := m.r
+	c += " less"
+	elems := m.abstractElems(elemT, 2)
+	m.ev.resetScenario()
+	defer m.ev.resetScenario()
+	keys := map[string]bool{}
+	// table[rel+1][order]: rel = order of key(e0) vs key(e1); order 0 = less(0,1), 1 = less(1,0)
+	var table [3][2]int
+	for rel := -1; rel <= 1; rel++ {
+		for ord := 0; ord < 2; ord++ {
+			rr := rel
+			m.ev.rel = func(a, b string) int {
+				if a == "e0" && b == "e1" {
+					return rr
+				}
+				if a == "e1" && b == "e0" {
+					return -rr
+				}
+				return 2
+			}
+			outs := run(elems, ord, 1-ord)
+			for k := range m.ev.keysUsed {
+				keys[k] = true
+			}
+			got, why := c10Single(outs, "the less function")
+			if why == "" && (got.K != c10VBool || got.Tri == -1) {
+				why = "the result is not decided by the order of the two keys"
+				if len(keys) > 1 {
+					var ks []string
+					for k := range keys {
+						if k == "" {
+							k = "the element itself"
+						}
+						ks = append(ks, k)
+					}
+					sort.Strings(ks)
+					r.Bad(c, pos, "the less function compares different keys of the two elements (%s): the order is not the integer order of one packed id", strings.Join(ks, " vs "))
+					return
+				}
+			}
+			if why != "" {
+				r.Unknown(c, pos, "less(%d,%d) with key(e0) %s key(e1): %s (accepted: any function whose result only depends on comparing the same packed-id key of both elements)", ord, 1-ord, map[int]string{-1: "<", 0: "==", 1: ">"}[rel], why)
+				return
+			}
+			table[rel+1][ord] = got.Tri
+		}
+	}
+	// required: less(0,1) true iff key0<key1; less(1,0) true iff key0>key1
+	want := [3][2]int{{1, 0}, {0, 0}, {0, 1}}
+	if table != want {
+		switch {
+		case table[1][0] == 1 || table[1][1] == 1:
+			r.Bad(c, pos, "less is true for two elements with equal ids: it is not strict, which sort.Sort does not allow, and equal ids are not treated as equal")
+		case table == [3][2]int{{0, 1}, {0, 0}, {1, 0}}:
+			r.Bad(c, pos, "less orders descending: the Sort methods must order by type (node, way, relation), then id, then version ascending")
+		default:
+			r.Bad(c, pos, "less is not `key(i) < key(j)` (truth table over key order <,==,> and both argument orders: %v, required %v)", table, want)
+		}
 		return
 	}
-	ret, ok := fi.Decl.Body.List[0].(*ast.ReturnStmt)
-	if !ok || len(ret.Results) != 1 {
-		r.Unknown(c, pos, "comparator body is not a single return")
+	var key string
+	for k := range keys {
+		key = k
+	}
+	if len(keys) != 1 {
+		r.Unknown(c, pos, "less does not compare exactly one key of the elements (%d keys seen)", len(keys))
 		return
 	}
-	be, ok := ast.Unparen(ret.Results[0]).(*ast.BinaryExpr)
-	if !ok {
-		r.Unknown(c, pos, "comparator does not return a comparison: %s", c10Src(r, ret))
+	if key == "" {
+		if !m.isPacked(elemT) {
+			r.Unknown(c, pos, "less compares the elements of type %s directly, not packed ids", elemT)
+			return
+		}
+		r.OK(c, pos, "evaluated for key(e0) <, ==, > key(e1) and both argument orders: less(i,j) is exactly `id[i] < id[j]` on the %s values themselves", m.localName(elemT))
 		return
 	}
-	sa, fa, oka := m.idSide(be.X, recv, params[0], params[1])
-	sb, fb, okb := m.idSide(be.Y, recv, params[0], params[1])
-	if !oka || !okb {
-		r.Unknown(c, pos, "operands of %s are not a[i] / a[j] (optionally through an id accessor)", c10Src(r, be))
-		return
-	}
-	text := c10Src(r, be)
-	switch {
-	case sa == sb:
-		r.Bad(c, be.Pos(), "`%s` compares element %s with itself", text, sa)
-		return
-	case fa != fb:
-		r.Bad(c, be.Pos(), "`%s` compares different keys on the two sides", text)
-		return
-	case be.Op == token.LEQ || be.Op == token.GEQ:
-		r.Bad(c, be.Pos(), "`%s` is not strict: Less(i,i) is true, which sort.Sort does not allow, and equal ids are not treated as equal", text)
-		return
-	case be.Op == token.LSS && sa == "i", be.Op == token.GTR && sa == "j":
-	case be.Op == token.LSS || be.Op == token.GTR:
-		r.Bad(c, be.Pos(), "`%s` orders descending: the Sort methods must order by type (node, way, relation), then id, then version ascending", text)
-		return
-	default:
-		r.Bad(c, be.Pos(), "`%s` is not an order comparison", text)
-		return
-	}
-	keyT := m.localName(m.info.TypeOf(be.X))
-	if !m.isPacked(m.info.TypeOf(be.X)) {
-		r.Unknown(c, be.Pos(), "`%s` compares values of type %s, not packed ids", text, m.info.TypeOf(be.X))
-		return
+	// through an accessor: it must be the finest key the element offers, and every implementation a K2 constructor
+	var fa *types.Func
+	ms := types.NewMethodSet(elemT)
+	for i := 0; i < ms.Len(); i++ {
+		if f, ok := ms.At(i).Obj().(*types.Func); ok && f.FullName() == key {
+			fa = f
+		}
 	}
 	if fa == nil {
-		r.OK(c, be.Pos(), "`%s`: strict ascending integer comparison of the %s values themselves", text, keyT)
+		r.Unknown(c, pos, "the compared key %s is not a method of %s", key, elemT)
 		return
 	}
-	// through an accessor: the element type must not offer a finer key, and every implementation must be a K2 constructor
-	elemT := m.info.TypeOf(ast.Unparen(ast.Unparen(be.X).(*ast.CallExpr).Fun).(*ast.SelectorExpr).X)
+	keyT := m.localName(fa.Type().(*types.Signature).Results().At(0).Type())
+	if !m.isPacked(fa.Type().(*types.Signature).Results().At(0).Type()) {
+		r.Unknown(c, pos, "less compares %s() values of type %s, not packed ids", fa.Name(), fa.Type().(*types.Signature).Results().At(0).Type())
+		return
+	}
 	if keyT != "ElementID" {
-		ms := types.NewMethodSet(elemT)
 		for i := 0; i < ms.Len(); i++ {
 			if f, ok := ms.At(i).Obj().(*types.Func); ok {
 				if rs := f.Type().(*types.Signature).Results(); rs.Len() == 1 && m.localName(rs.At(0).Type()) == "ElementID" && f.Type().(*types.Signature).Params().Len() == 0 {
-					r.Bad(c, be.Pos(), "`%s` orders %s values by %s, which lacks the version; elements must be ordered by type, id and then version (%s())", text, elemT, keyT, f.Name())
+					r.Bad(c, pos, "less orders %s values by %s(), a %s, which lacks the version; elements must be ordered by type, id and then version (%s())", elemT, fa.Name(), keyT, f.Name())
 					return
 				}
 			}
 		}
 	}
-	r.OK(c, be.Pos(), "`%s`: strict ascending integer comparison of the %s of both elements", text, keyT)
+	r.OK(c, pos, "evaluated for key(e0) <, ==, > key(e1) and both argument orders: less(i,j) is exactly `%s()[i] < %s()[j]`, strict ascending integer comparison of the %s of both elements", fa.Name(), fa.Name(), keyT)
 	iface, _ := elemT.Underlying().(*types.Interface)
+	base := strings.TrimSuffix(c, " less")
 	if iface == nil {
 		ok, why := m.quietProducerOK(m.funcInfoOf(fa))
-		r.Check(ok, c+" key "+funcName(fa), pos, "the key accessor is a K2-verified constructor", "the key accessor does not produce the K2 id: "+why)
+		r.Check(ok, base+" key "+funcName(fa), pos, "the key accessor is a K2-verified constructor", "the key accessor does not produce the K2 id: "+why)
 		return
 	}
 	seen := map[*types.Func]bool{}
@@ -376,7 +533,7 @@ func (m *c10Model) checkLess(fi *FuncInfo, c string, recv types.Object, params [
 			}
 			seen[f] = true
 			impl := m.funcInfoOf(f)
-			cc := c + " key " + funcName(f)
+			cc := base + " key " + funcName(f)
 			if impl == nil {
 				r.Unknown(cc, pos, "implementation of %s for %s has no body in the package", fa.Name(), t)
 				continue
@@ -385,12 +542,12 @@ func (m *c10Model) checkLess(fi *FuncInfo, c string, recv types.Object, params [
 			if ok {
 				r.OK(cc, impl.Decl.Pos(), "%s implements the compared key and yields the K2 id kindMask | ref<<16 | ver of its fields", impl.Name())
 			} else {
-				r.Bad(cc, impl.Decl.Pos(), "%s is the key %s sorts by but does not yield the K2 id: %s", impl.Name(), strings.TrimPrefix(c, "comparator@"), why)
+				r.Bad(cc, impl.Decl.Pos(), "%s is the key %s sorts by but does not yield the K2 id: %s", impl.Name(), strings.TrimPrefix(base, "comparator@"), why)
 			}
 		}
 	}
 	if len(seen) == 0 {
-		r.Unknown(c+" key", pos, "no implementation of %s found in the package", elemT)
+		r.Unknown(base+" key", pos, "no implementation of %s found in the package", elemT)
 	}
 }
 
